@@ -484,6 +484,12 @@ func orchestrate(prop, tier string) int {
 		}
 	}
 
+	for _, name := range spec.MustReach {
+		if total.Probes[name] == 0 {
+			infra = append(infra, fmt.Errorf("reach probe %q stayed at zero over %d runs: the workload no longer reaches what this check is about", name, doneRuns))
+		}
+	}
+
 	// 3. sort violations into known findings and new ones; shrink and verify
 	// one representative per clause.
 	sort.SliceStable(all, func(i, j int) bool { return all[i].Clause < all[j].Clause })
